@@ -8,7 +8,19 @@
                cpriv  <key> <index> <0|1> <vprv> <vpub>
                cpub   <key> <index> <vprv> <vpub>
                spec   <key> <path hex> <vprv> <vpub>        (the specification's answer, for the corpus)
+               wifidx <key> <n|-> <0|1> <vprv> <vpub>       (wif(is_private=<0|1>, child_index=n); answer: the string
+                                                             (or ERR) and the child number of the key after the call)
                (<vprv> <vpub> = "- -": the two export strings are not requested and printed as "x")
+               sess   <key> <cfg> <step> <step> ...          (a session on ONE object and the objects derived from it)
+                 key   additionally  phrase:<mnemonic hex>:<password hex>:<seed hex>  (the model starts from the seed)
+                 cfg   <network name>,<coin type>,<vprv>,<vpub>,<l|p|s>,<0|1>        (network, witness_type, multisig)
+                 step  <slot>,<w>,<op>  with <slot> the object the call is put to (0 = the start object, k+1 = the
+                       object returned by step k), <w> = 1: print the export strings of the returned object, <op> one of
+                         p,<path hex>,<s|l>   cpriv,<index>,<0|1>   cpub,<index>   pub
+                         pm,<account>,<purpose|->,<multisig 0|1|->,<witness l|p|s|->,<as_private 0|1>,<m|mm>
+                         net,<name>,<coin>,<vprv>,<vpub>   exp,<which>
+                 answer  per step "T <named object after the call | none> R <FAIL | SELF | NEW returned object>",
+                         objects as above followed by <network> <l|p|s> <0|1>; steps joined by " | "
    answer      <private hex|-> <public hex> <chain> <depth> <index> <pfp> <xprv string|-|ERR|x> <xpub string|ERR|x>  |  ERR *)
 module BZ = Z
 open C03_model
@@ -33,6 +45,8 @@ let key_of_tok t : lkey option =
   | ["seedpub"; h] -> (match lib_from_seed (bytes_of_hex h) with Some k -> Some (lib_public k) | None -> None)
   | [kind; k; c; d; f; i] -> key_of_fields kind k c d f i
   | ["xstr"; _; kind; k; c; d; f; i] -> key_of_fields kind k c d f i
+  | ["xwif"; _; kind; k; c; d; f; i] -> key_of_fields kind k c d f i
+  | ["phrase"; _; _; h] -> lib_from_seed (bytes_of_hex h)
   | _ -> failwith "key token"
 
 let show vprv vpub (k : lkey option) =
@@ -51,6 +65,50 @@ let show vprv vpub (k : lkey option) =
 
 let bind o f = match o with Some x -> f x | None -> None
 
+(* ---- sessions ---- *)
+let wt_of = function "l" -> WLegacy | "p" -> WP2sh | "s" -> WSegwit | _ -> failwith "witness type"
+let wt_str = function WLegacy -> "l" | WP2sh -> "p" | WSegwit -> "s"
+let bytes_of_str s = List.init (String.length s) (fun i -> zb (BZ.of_int (Char.code s.[i])))
+
+let cfg_of_tok t =
+  match String.split_on_char ',' t with
+  | [name; coin; vprv; vpub; w; m] ->
+      { kc_net = bytes_of_str name; kc_coin = z_of coin; kc_vprv = bytes_of_hex vprv; kc_vpub = bytes_of_hex vpub;
+        kc_wit = wt_of w; kc_multi = (m = "1") }
+  | _ -> failwith "cfg token"
+
+let rec nat_of_int n = if n <= 0 then O else S (nat_of_int (n - 1))
+
+let step_of_tok t : sreq * bool =
+  match String.split_on_char ',' t with
+  | slot :: w :: op ->
+      let o = match op with
+        | ["p"; path; _] -> SPath (bytes_of_hex path)
+        | ["cpriv"; i; h] -> SChildPriv (z_of i, h = "1")
+        | ["cpub"; i] -> SChildPub (z_of i)
+        | ["pub"] -> SPublic
+        | ["pm"; acc; pur; multi; wit; ap; _] ->
+            SMaster (z_of acc, (if pur = "-" then None else Some (z_of pur)),
+                     (if multi = "-" then None else Some (multi = "1")),
+                     (if wit = "-" then None else Some (wt_of wit)), ap = "1")
+        | ["net"; name; coin; vprv; vpub] -> SNet (bytes_of_str name, z_of coin, bytes_of_hex vprv, bytes_of_hex vpub)
+        | ["exp"; _] | ["exp"; _; _] -> SExport
+        | _ -> failwith "session op" in
+      ({ rq_slot = nat_of_int (int_of_string slot); rq_op = o }, w = "1")
+  | _ -> failwith "session step"
+
+let show_cfg c = String.concat " " [str_of_bytes c.kc_net; wt_str c.kc_wit; bool_s c.kc_multi]
+
+let show_obj w (o : hobj) =
+  let c = o.ho_cfg in
+  let vprv = if w then hex_of_bytes c.kc_vprv else "-" and vpub = if w then hex_of_bytes c.kc_vpub else "-" in
+  show vprv vpub (Some o.ho_key) ^ " " ^ show_cfg c
+
+let show_ans w (a : sans) =
+  let t = match a.an_target with None -> "none" | Some o -> show_obj false o in
+  let r = match a.an_result with RFail -> "FAIL" | RSelf -> "SELF" | RNew o -> "NEW " ^ show_obj w o in
+  "T " ^ t ^ " R " ^ r
+
 let dispatch = function
   | ["derive"; k; p; _; vprv; vpub] ->
       show vprv vpub (bind (key_of_tok k) (fun x -> lib_subkey_for_path x (bytes_of_hex p)))
@@ -64,6 +122,20 @@ let dispatch = function
   | ["spec"; k; p; vprv; vpub] ->
       show vprv vpub (bind (key_of_tok k) (fun x ->
         bind (lib_parse_path (bytes_of_hex p)) (fun pp -> s_subkey x (sem pp))))
+  | ["wifidx"; k; n; a; vprv; vpub] ->
+      (match key_of_tok k with
+       | None -> "ERR"
+       | Some x ->
+           let v = bytes_of_hex (if a = "1" && lib_is_private x then vprv else vpub) in
+           let r = lib_wif_index v (a = "1") x (if n = "-" then None else Some (z_of n)) in
+           (match r with Some s -> str_of_bytes s | None -> "ERR") ^ " " ^ str_z (lib_meta x).m_index)
+  | "sess" :: k :: cfg :: steps ->
+      (match key_of_tok k with
+       | None -> "ERR"
+       | Some x ->
+           let sw = List.map step_of_tok steps in
+           let ans = lib_session { ho_key = x; ho_cfg = cfg_of_tok cfg } (List.map fst sw) in
+           String.concat " | " (List.map2 (fun (_, w) a -> show_ans w a) sw ans))
   | _ -> "BADREQ"
 
 let () = main dispatch
